@@ -27,7 +27,7 @@ PROPS["C12"] = {
     "design_ref": "DESIGN.md section 5, C12",
 }
 PROPS["C19"] = {
-    "units": {"kani": ["c19_base64"]},
+    "units": {"kani": ["c19_base64", "c19_automaton"]},
     "scope": "the base64 alphabet table and the derived two-character lookup table used by the in-circuit base64 chip",
     "not_decided": ["regex -> automaton pipeline (determinisation, minimisation, complement, marker-aware intersection over hash sets)",
                     "the in-circuit parser and base64 chip", "shipped serialized automata", "decode_char (lazy_static HashMap)", "two_entry_table (4096-element Vec construction: CBMC does not finish, Verus cannot ingest the iterator loops)"],
@@ -39,7 +39,7 @@ PROPS["C19"] = {
     "design_ref": "DESIGN.md section 5, C19",
 }
 PROPS["C16"] = {
-    "units": {"kani": ["c16_serialization", "c16_pack", "c10_bytes"]},
+    "units": {"kani": ["c16_serialization", "c16_pack", "c10_bytes"], "polyvc": ["c11_bls"]},
     "scope": "pure-Rust byte decoders: the automaton Serialize::deserialize family, pack/unpack of selector bytes, and (shared with C10) the canonical-field-encoding decoders",
     "not_decided": ["VerifyingKey::read_from_cs, ZkStdLibArch::read (bincode), ZkStdLib::configure, ParamsKZG::read_custom, IR loading: generic / iterator / FFI code",
                     "the out-of-range column-count and fixed-commitment-count panics described in the property text are NOT reachable by this family here",
